@@ -52,6 +52,7 @@ type Ctx struct {
 	Root    string
 	Overlay map[string][]byte
 	Quiet   bool
+	mutMemo map[*ssa.Function]bool
 
 	Fset    *token.FileSet
 	Pkgs    []*packages.Package
